@@ -136,9 +136,14 @@ def gen_psbt(rng, version=None, big=False, rich=True):
                 if k not in used:
                     used.add(k)
                     m.append((b"\x14" + k, rbytes(rng, rng.choice([64, 65]))))
+            used = set()
             for _ in range(rng.choice([0, 0, 0, 1, 2])):
-                m.append((b"\x15" + bytes([0xc0 + rng.randrange(2)]) + rng.choice(keys)[2] + rbytes(rng, 32 * rng.randrange(3)),
-                          gen.gen_script(rng) + b"\xc0"))
+                # same draws as before; a repeated control block would be a duplicate key (an invalid PSBT)
+                kv = (b"\x15" + bytes([0xc0 + rng.randrange(2)]) + rng.choice(keys)[2] + rbytes(rng, 32 * rng.randrange(3)),
+                      gen.gen_script(rng) + b"\xc0")
+                if kv[0] not in used:
+                    used.add(kv[0])
+                    m.append(kv)
             used = set()
             for _ in range(rng.choice([0, 0, 0, 1, 2])):
                 k = rng.choice(keys)[2]
